@@ -2,5 +2,12 @@ package runtime
 
 // Native-replay bodies for the C-linked leaves of llgo's runtime package.
 
-func fastrand() uint32 { return 0x2545F491 }
+func fastrand() uint32 {
+	if len(nd_randq) > 0 {
+		v := nd_randq[0]
+		nd_randq = nd_randq[1:]
+		return v
+	}
+	return 0x2545F491
+}
 func srand(uint32)     {}
